@@ -8,7 +8,7 @@
 From VF Require Import Base.Prelude Gen.Enums Gen.Configs Gen.Policy Gen.Registry Gen.Checks
      Gen.MatDesc Gen.InstChecks Gen.Scopes Model.Recipe Model.Check Model.Graph
      Model.Plan Model.Perform Spec.WF Proofs.ListFacts Proofs.PerformStep Proofs.ModeProofs
-     Proofs.UntouchedProofs Model.Insts Proofs.InstsCover Proofs.GroupNest Proofs.ReadersProofs Proofs.PerformInv Proofs.SkeletonInv Proofs.ReadersOrig.
+     Proofs.UntouchedProofs Model.Insts Proofs.InstsCover Proofs.GroupNest Proofs.ReadersProofs Proofs.PerformInv Proofs.SkeletonInv Proofs.ReadersOrig Spec.LastOk Proofs.LastOkSound.
 
 (* (a) mode -> per-operand transformation, for EVERY config in one of the
    three modes (static-range: integer compute with an activation config;
@@ -361,6 +361,30 @@ Theorem C03_last_instruction_of_a_nested_list_is_read_by_exactly_the_listed_oper
 Proof. exact last_instruction_readers. Qed.
 Print Assumptions C03_last_instruction_of_a_nested_list_is_read_by_exactly_the_listed_operators.
 
+(* The same theorem with the GENERATOR in front and every remaining hypothesis
+   DECIDED: the instructions are those `insts_of_params` emits for some plan
+   (their sanity — tensor ids in range, producer exact — is then a theorem,
+   Proofs/InstsSane.v), and `last_hypb m0 tis n` (Spec/LastOk.v, executable,
+   proved sound in Proofs/LastOkSound.v) decides the nest shape of list n, the
+   common tensor, the kind and consumer ids of its last instruction, the
+   absence of earlier insertions on the tensor and the id ranges.  The
+   correspondence harness evaluates `last_hypb` in Coq on EVERY instruction
+   list the model generates from the library's own plans and reports how many
+   lists that end with an insertion meet it (evidence: coverage of C03). *)
+Theorem C03_generated_last_instruction_is_read_by_exactly_the_listed_operators :
+  forall m0 ps tis n m',
+    Forall wf_sg (m_subgraphs m0) -> uids_ok m0 ->
+    insts_of_params m0 ps = Ok tis ->
+    last_hypb m0 tis n = true ->
+    transform_graph m0 tis = Ok m' ->
+    exists pre ti0 post steps i0 k g0,
+      tis = pre ++ ti0 :: post /\ length pre = n /\ ti_insts ti0 = steps ++ [i0] /\
+      ti_sg ti0 = Z.of_nat k /\ nth_opt (m_subgraphs m0) k = Some g0 /\
+      exists x' g', nth_opt (m_subgraphs m') k = Some g' /\ ntens g0 <= x' /\
+                    readers_profile x' g' = moved_profile (i_tensor i0) (i_consumers i0) g0.
+Proof. exact last_instruction_readers_checked. Qed.
+Print Assumptions C03_generated_last_instruction_is_read_by_exactly_the_listed_operators.
+
 (* non-vacuity of the nest: [ADD_QUANTIZE for ops 0 and 1; ADD_DEQUANTIZE for op 1]
    on the input of two readers: the second instruction is re-targeted onto tensor 3,
    its own new tensor 4 is read by operator 1 only *)
@@ -387,6 +411,21 @@ Proof.
     + intros _ s2 [].
   - vm_compute. split; reflexivity.
 Qed.
+
+(* the decided hypotheses hold on that run (list 0 of the run) *)
+Example C03_last_hypb_nonvacuous :
+  let p := Some {| qp_id := 5; qp_uniform := true; qp_bits := 8; qp_has_data := false |} in
+  let tf r := {| t_root := r; t_sfx := []; t_shape := 0; t_ty := TY_FLOAT32; t_buf := 0; t_q := None |} in
+  let m := {| m_subgraphs := [{| sg_tensors := [tf 0; tf 1; tf 2];
+                                 sg_ops := [{| o_code := 0; o_ins := [0]; o_outs := [1]; o_uid := 0 |};
+                                            {| o_code := 0; o_ins := [0]; o_outs := [2]; o_uid := 1 |}];
+                                 sg_inputs := [0]; sg_outputs := [1; 2] |}];
+              m_buffers := [BEmpty]; m_opcodes := [0]; m_sigs := [] |} in
+  let s := {| i_trans := Tr_ADD_QUANTIZE; i_tensor := 0; i_producer := -1; i_consumers := [0; 1]; i_params := p |} in
+  let i0 := {| i_trans := Tr_ADD_DEQUANTIZE; i_tensor := 0; i_producer := -1; i_consumers := [1]; i_params := p |} in
+  last_hypb m [{| ti_name := (0, []); ti_sg := 0; ti_insts := [s; i0] |}] 0 = true.
+Proof. vm_compute. reflexivity. Qed.
+
 
 (* non-vacuity: QUANTIZE inserted on the graph input of x --op--> y for consumer
    0: the new tensor 2 is read by the operator with uid 0 at slot 0 *)
